@@ -11,6 +11,9 @@ import subprocess
 import sys
 import time
 
+if hasattr(sys, "set_int_max_str_digits"):
+    sys.set_int_max_str_digits(0)      # integers are exchanged exactly, however long
+
 VERIF = os.path.dirname(os.path.dirname(os.path.abspath(__file__)))
 REPO = os.environ.get("BARTIQ_REPO", "/repo")
 COQ = os.path.join(VERIF, "coq")
